@@ -198,6 +198,12 @@ def from_ast(n):
     if isinstance(n, A.Constant) and type(n) is A.Constant:
         if isinstance(n.value, (int, float)) and not isinstance(n.value, bool) and n.value < 0:
             raise OutOfFragment('signed constant')
+        if isinstance(n.value, float):
+            from vtlengine.AST.ASTString import _handle_literal
+            try:
+                if valkey(_handle_literal(n.value), from_lexeme=True) != valkey(None, n.value): raise ValueError
+            except Exception:  # noqa: BLE001  literal outside the exact range of _handle_literal (see Text/Literal.lean)
+                raise OutOfFragment('float literal that _handle_literal does not print exactly')
         return ['C', valkey(None, n.value)]
     if isinstance(n, A.VarID): return ['V', n.value]
     if isinstance(n, A.Identifier): return ['V', n.value]
@@ -295,7 +301,12 @@ STRINGS = ['a', 'x and y', 'p or q', '(a)', 'a(b', 'c)d', '[x]', ' lead', 'tail 
            'a;b', 'x := 1', '/* no */', '// no', 'a,b', 'then', '#', '']
 
 
+SAFE = [False]
+
+
 def num_literal(rng):
+    if SAFE[0]:
+        return rng.choice(['0', '1', '2', '10', '42', '1000', '0.5', '1.5', '2.25', '10.75', '0.125', '3.1', '99.99'])
     k = rng.random()
     if k < 0.25: return str(rng.choice([0, 1, 2, 5, 10, 99, 1000, 123456, 1234567, 10 ** 9, 10 ** 15, 10 ** 18]))
     if k < 0.45: return '%d.%d' % (rng.randint(0, 999), rng.randint(1, 9999))          # few digits
@@ -306,7 +317,7 @@ def num_literal(rng):
 
 
 def name(rng, quoted_ok=True):
-    if quoted_ok and rng.random() < 0.12:
+    if quoted_ok and rng.random() < (0.04 if SAFE[0] else 0.12):
         return "'" + rng.choice(RESERVED) + "'"
     return rng.choice(COMPS)
 
@@ -418,6 +429,7 @@ def definition(rng, i):
 
 
 def script(rng):
+    SAFE[0] = rng.random() < 0.6      # 60 %: only literals that _handle_literal prints exactly, so other constructs show
     n = rng.randint(1, 5)
     parts = []
     for i in range(n):
